@@ -87,6 +87,21 @@ func lockStatesFrom(fn *ssa.Function, classify func(ssa.CallInstruction) lockKin
 				s = 1
 			case lockRelease:
 				s = 0
+			default:
+				// a wrapper: a module function that returns with the lock held on all its paths acquires it; one that
+				// returns without it when entered with it releases it (deferred releases inside the wrapper count)
+				if g := ci.Common().StaticCallee(); g != nil && g.Blocks != nil && g != fn && wrapperDepth < 2 {
+					switch lockWrapperKind(g, classify) {
+					case lockAcquireW:
+						s = 2
+					case lockAcquireR:
+						if s < 1 {
+							s = 1
+						}
+					case lockRelease:
+						s = 0
+					}
+				}
 			}
 		}
 		return s
@@ -137,4 +152,54 @@ func lockStatesFrom(fn *ssa.Function, classify func(ssa.CallInstruction) lockKin
 		}
 	}
 	return states
+}
+
+var wrapperDepth int
+
+// lockWrapperKind: what a call of g does to the lock, judged from g's own body
+func lockWrapperKind(g *ssa.Function, classify func(ssa.CallInstruction) lockKind) lockKind {
+	touches, deferredRelease := false, false
+	eachInstr(g, func(in ssa.Instruction) {
+		if ci, ok := in.(ssa.CallInstruction); ok {
+			if k := classify(ci); k != lockNone {
+				touches = true
+				if _, isDefer := in.(*ssa.Defer); isDefer && k == lockRelease {
+					deferredRelease = true
+				}
+			}
+		}
+	})
+	if !touches {
+		return lockNone
+	}
+	wrapperDepth++
+	defer func() { wrapperDepth-- }()
+	exitState := func(entry int) int {
+		st := lockStatesFrom(g, classify, entry)
+		min := 3
+		eachInstr(g, func(in ssa.Instruction) {
+			if _, ok := in.(*ssa.Return); ok {
+				if v, seen := st[in]; seen && v < min {
+					min = v
+				}
+			}
+		})
+		if min == 3 {
+			return entry
+		}
+		if deferredRelease {
+			return 0
+		}
+		return min
+	}
+	switch exitState(0) {
+	case 2:
+		return lockAcquireW
+	case 1:
+		return lockAcquireR
+	}
+	if exitState(2) == 0 {
+		return lockRelease
+	}
+	return lockNone
 }
